@@ -89,6 +89,16 @@ func (fr *Frame) doCall(c *ssa.CallCommon, fnv Val, args []Val, rt types.Type, p
 				res = fr.vc.zeroVal(rt)
 				break
 			}
+			if u, ok := c.Value.(*ssa.UnOp); ok {
+				if fa, ok := u.X.(*ssa.FieldAddr); ok {
+					T := fa.X.Type().Underlying().(*types.Pointer).Elem()
+					if k := fr.vc.typeName(T) + "." + fieldName(T, fa.Field); fr.vc.S.NoEffect[k] {
+						fr.vc.note("call of the function stored in " + k + ": declared to have no effect on modelled state")
+						res = fr.typed(fr.vc.freshVal("ret."+sanitize(k), rt))
+						break
+					}
+				}
+			}
 			res = fr.unknownCall("dynamic call of func value", args, rt, true)
 			break
 		}
@@ -103,7 +113,9 @@ func (fr *Frame) staticCall(callee *ssa.Function, bindings []Val, args []Val, rt
 	if v, ok := fr.libModel(callee, args, rt, pos); ok {
 		return v
 	}
-	if ct := fr.contractFor(callee); ct != nil {
+	if ct := fr.contractFor(callee); ct != nil && !(callee.Parent() != nil && len(callee.FreeVars) > 0) {
+		// (a closure's contract speaks about its captured variables and is meant for verifying the
+		// closure as a task entry; at a call site with known bindings the body is executed inline)
 		names := paramNames(callee)
 		if len(ct.Params) > 0 {
 			names = ct.Params
@@ -386,8 +398,9 @@ func (fr *Frame) applyContract(ct *Contract, sig *types.Signature, names []strin
 	}
 	pre := fr.cur.heap
 	if !ct.Pure {
-		fr.cur.heap = fr.havocModifies(ct, env, calleeKey)
+		// time first: objects handed back by the callee may have been allocated during the call
 		fr.bumpNow()
+		fr.cur.heap = fr.havocModifies(ct, env, calleeKey)
 	}
 	res := vc.freshVal("ret."+sanitize(calleeKey), rt)
 	if ct.Pure {
